@@ -120,7 +120,20 @@ def attach_handle_rules(ctx, F, rule="R17.5"):
         adt = F.adts.get((imp.get("self_head") or {}).get("adt"))
         if not adt:
             continue
-        if any(f["ty"].startswith("core::option::Option<fn()") for v in adt["variants"] for f in v["fields"]):
+        def _fn_state(ty):
+            """Option<fn()> or a private two-state enum { Holding(fn()), Empty }: (full variant, empty variant) or None"""
+            if ty.startswith("core::option::Option<fn()"):
+                return ("Some", "None")
+            a_ = F.adts.get(ty)
+            if a_ and a_["crate"] == core and len(a_["variants"]) == 2:
+                full_ = [v_["name"] for v_ in a_["variants"] if len(v_["fields"]) == 1 and v_["fields"][0]["ty"].startswith("fn()")]
+                empty_ = [v_["name"] for v_ in a_["variants"] if not v_["fields"]]
+                if len(full_) == 1 and len(empty_) == 1:
+                    return (full_[0], empty_[0])
+            return None
+        states = [st_ for v in adt["variants"] for f in v["fields"] for st_ in [_fn_state(f["ty"])] if st_]
+        if states:
+            adt = dict(adt, _fn_state=states[0])
             for it in imp["items"]:
                 if it["name"] == "drop":
                     b = F.bodies.get((core, it.get("uid") or it["def"]))
@@ -129,7 +142,9 @@ def attach_handle_rules(ctx, F, rule="R17.5"):
     ctx.floor(rule, "attach-handle destructors (ADT holding Option<fn()>)", len(drops), 1)
     for adt, b in drops:
         key = fnkey(b)
-        takes = [c for c in b.calls() if c.is_("core::option::Option::<T>::take")]
+        full_v, empty_v = adt["_fn_state"]
+        takes = [c for c in b.calls() if c.is_("core::option::Option::<T>::take") or c.is_("core::mem::replace", "core::mem::take")]
+        take_bbs = {c.bb for c in takes}
         ptr_calls = [i for i in b.live_blocks() if b.term(i)["k"] == "call" and "callee_op" in b.term(i)]
         ctx.check(bool(takes) and bool(ptr_calls), rule, key + "#take-then-call", loc(b),
                   "destructor does not take() the stored fn and call it", "take bb%s, call bb%s" % ([c.bb for c in takes], ptr_calls))
@@ -140,8 +155,8 @@ def attach_handle_rules(ctx, F, rule="R17.5"):
                     if "callee_op" in t:
                         return [((a or 0) + 1, {})]
                     c = t.get("callee", {})
-                    if c.get("def") == "core::option::Option::<T>::take":
-                        return [(a, {"dest": ("v", "Some")}), (("none", a), {"dest": ("v", "None")})]
+                    if bb in take_bbs:
+                        return [(a, {"dest": ("v", full_v)}), (("none", a), {"dest": ("v", empty_v)})]
                     return None
             s = S(b).run(0, 0, {})
             some_rets = [a for _, a, _ in s.returns if not (isinstance(a, tuple) and a[0] == "none")]
